@@ -38,10 +38,10 @@ ALPHABET = (
     [['pop-last'], ['pop-first'], ['clear'],
      ['ior', 2, 0, 3], ['ior', 3, 1], ['ior-bad', 3, 1], ['ior-bad', 2], ['iand', 0, 3], ['iand', 3, 1, 2], ['isub', 1, 0], ['ixor', 3, 0, 1],
      ['or', 3, 0], ['and', 3, 2, 0], ['sub', 0, 2], ['xor', 3, 0], ['eq', 0, 1], ['eq', 1, 0],
-     ['iter-rm', 0, 2], ['iter-rm', 1], ['isub-self']]
+     ['iter-rm', 0, 2], ['iter-rm', 1], ['riter-rm', 0, 2], ['riter-rm', 3], ['isub-self']]
 )
 PTR_ALPHABET = [['add', k] for k in U] + [['discard', k] for k in U] + [['iter-rm', 0, 2], ['iter-rm', 1, 3],
-                                                                       ['iter-rm', 0, 1, 2, 3]]
+                                                                       ['iter-rm', 0, 1, 2, 3], ['riter-rm', 1, 2]]
 
 _xtuml = None
 
@@ -66,7 +66,7 @@ def generate(ctx):
     n = ctx.pick(300, 6000)
     maxlen = ctx.pick(60, 400)
     names = ['add', 'discard', 'remove', 'pop-last', 'pop-first', 'clear', 'ior', 'ior-bad', 'iand', 'isub', 'ixor',
-             'or', 'and', 'sub', 'xor', 'eq', 'iter-rm', 'isub-self', 'ixor-self', 'in']
+             'or', 'and', 'sub', 'xor', 'eq', 'iter-rm', 'riter-rm', 'isub-self', 'ixor-self', 'in']
     big = list(range(0, 12))
     for i in range(n):
         r = rng.fork(i)
@@ -90,12 +90,19 @@ def generate(ctx):
         univ = U if r.random() < 0.3 else big
         ops = []
         for _ in range(r.randint(5, maxlen)):
-            nm = r.choice(['add', 'add', 'add', 'discard', 'discard', 'iter-rm', 'in'])
+            nm = r.choice(['add', 'add', 'add', 'discard', 'discard', 'iter-rm', 'riter-rm', 'in'])
             if nm in ('add', 'discard'):
                 ops.append([nm, r.choice(univ)])
             else:
                 ops.append([nm] + [r.choice(univ) for _ in range(r.randint(0, 4))])
         yield {'cls': r.choice(['OrderedSet', 'QuerySet']), 'level': 'ptr', 'ops': ops}
+    # D-only: operands whose containment test differs from what they yield (str: substring test), string elements
+    pool = ['a', 'ab', 'abc', 'x', 'b', '']
+    for cls in ('OrderedSet', 'QuerySet'):
+        for start in (['a', 'ab', 'abc', 'x'], ['x'], ['b', 'a'], []):
+            for operand in ('abcdef', 'ab', '', 'x', 'ba', 'xxabc'):
+                for nm in ('isub', 'iand', 'ixor', 'ior', 'sub', 'and', 'or', 'xor'):
+                    yield {'cls': cls, 'level': 'str', 'start': start, 'operand': operand, 'op': nm}
 
 
 def _first_last(s, cls):
@@ -104,7 +111,50 @@ def _first_last(s, cls):
     return next(iter(s), None), next(reversed(s), None)
 
 
+def _run_str(case):
+    """set algebra with a str operand: the operand contributes the elements it YIELDS (its characters), whatever its own
+    `in` does"""
+    x = _xtuml
+    cls = x.OrderedSet if case['cls'] == 'OrderedSet' else x.QuerySet
+    s = cls(case['start'])
+    start, other = list(case['start']), list(dict.fromkeys(case['operand']))
+    nm = case['op']
+    fails = []
+    want = {'isub': [e for e in start if e not in other], 'sub': [e for e in start if e not in other],
+            'iand': [e for e in start if e in other], 'and': [e for e in start if e in other],
+            'ior': start + [e for e in other if e not in start], 'or': start + [e for e in other if e not in start],
+            'ixor': [e for e in start if e not in other] + [e for e in other if e not in start],
+            'xor': [e for e in start if e not in other] + [e for e in other if e not in start]}[nm]
+    try:
+        if nm == 'isub':
+            s -= case['operand']
+            got = list(s)
+        elif nm == 'iand':
+            s &= case['operand']
+            got = list(s)
+        elif nm == 'ixor':
+            s ^= case['operand']
+            got = list(s)
+        elif nm == 'ior':
+            s |= case['operand']
+            got = list(s)
+        else:
+            r = {'sub': s.__sub__, 'and': s.__and__, 'or': s.__or__, 'xor': s.__xor__}[nm](case['operand'])
+            got = list(r) if r is not NotImplemented else None
+            if list(s) != start:
+                fails.append({'sig': 'operand-changed', 'what': '%s %s %r changed the left operand to %r' % (start, nm, case['operand'], list(s))})
+    except Exception as e:
+        got = 'raised %s' % type(e).__name__
+    if got is not None and (not isinstance(got, list) or set(got) != set(want) or len(got) != len(want)):
+        fails.append({'sig': 'content', 'what': '%s(%r) %s %r gives %r, a mathematical set over the elements the operand yields holds %r'
+                      % (case['cls'], start, nm, case['operand'], got, sorted(want))})
+    return {'obs': [], 'd_fail': fails, 'nontrivial': bool(start) and bool(other), 'key': 'str/%r' % (sorted(case.items()),),
+            'stats': {'fam_str': 1}, 'model_line': None}
+
+
 def run_impl(case):
+    if case.get('level') == 'str':
+        return _run_str(case)
     cls = getattr(_xtuml, case['cls'])
     # two of a kind: other sets of the same class live beside `s` - one built (from an iterable) BEFORE it, one (empty) AFTER
     # it, one copied from it half way; whatever happens to `s` must leave them alone, and what happens to them must leave `s`
@@ -310,11 +360,37 @@ def run_impl(case):
                 if res != [(k in bset) for k in args]:
                     fail('membership', 'in gave %r on %r' % (res, before))
                 expect = bset
+            elif nm == 'riter-rm':
+                # the same walking BACKWARDS (reversed(s)): every element is visited once, in reverse order
+                visited = []
+                try:
+                    for x in reversed(s):
+                        visited.append(x)
+                        if x in args:
+                            s.discard(x)
+                except Exception as e:
+                    fail('iter-remove-raises', 'REVERSE iteration with removal of the visited element raised %s: %s after visiting %r'
+                         % (type(e).__name__, e, visited))
+                    for x in args:
+                        s.discard(x)
+                res = visited[::-1]          # observation in forward order: the model's iteration with removal
+                if visited != before[::-1]:
+                    fail('iter-remove-current', 'REVERSE iteration with removal of the visited element visited %r, '
+                         'the set held %r' % (visited, before))
+                expect = bset - set(args)
+                oracle = [k for k in oracle if k in expect]
+                nontrivial |= (reached2 and expect != bset)
             elif nm == 'iter-rm':
                 visited = []
-                for x in s:
-                    visited.append(x)
-                    if x in args:
+                try:
+                    for x in s:
+                        visited.append(x)
+                        if x in args:
+                            s.discard(x)
+                except Exception as e:
+                    fail('iter-remove-raises', 'iteration with removal of the visited element raised %s: %s after visiting %r'
+                         % (type(e).__name__, e, visited))
+                    for x in args:
                         s.discard(x)
                 res = visited
                 if visited != before:
@@ -367,8 +443,10 @@ def _norm(x):
 
 def model_line(case):
     head = 'osetp' if case['level'] == 'ptr' else 'oset'
-    # a rejected in-place union has taken in the elements its operand yielded before failing: for the model it is that union
-    return dumps([Sym(head)] + [[Sym('ior' if o[0] == 'ior-bad' else o[0])] + o[1:] for o in case['ops']])
+    # a rejected in-place union has taken in the elements its operand yielded before failing: for the model it is that union;
+    # a backward iteration with removal visits the same elements and leaves the same set as the forward one (the harness
+    # reports the visit list in forward order)
+    return dumps([Sym(head)] + [[Sym({'ior-bad': 'ior', 'riter-rm': 'iter-rm'}.get(o[0], o[0]))] + o[1:] for o in case['ops']])
 
 
 def model_obs(case, ans):
